@@ -19,3 +19,15 @@ check('C09', 'proof',
       "copy/neg/abs (they are executed as real code by the other checks). Known findings F-C09-K1a..K4 (NumPy-incompatible broadcasting of the dispatch layer) "
       "are reported as KNOWN-FINDING.",
       "deductive: AST->SMT VC generation with pointwise loop summaries (unbounded sizes) + symbolic execution of the real dispatch code against NumPy as oracle; z3", "DESIGN.md 4/C09")
+check('C13', 'proof',
+      "For every enumerated pair of stream kinds (single-phase; MultiStream with one, two or three phases built by the constructor or by casting; same, subset and "
+      "superset property packages; source phases present or absent in the target) and for all real-valued flows, T, P, price and characterization factors, the real "
+      "copy, copy_like, copy_thermal_condition, copy_phase, link_with (all 8 flag subsets), unlink, proxy, flow_proxy, the Stream/MultiStream constructors and the "
+      "__reduce__/slot recipes of streams, indexers, phases, thermal conditions, sparse data, reactions, chemicals and packages are executed symbolically and proved to "
+      "give equal observable state, to share exactly the advertised containers (object identity plus write-through both ways), to be independent otherwise (frame after "
+      "arbitrary symbolic writes) and to round-trip through pickle; every link/unlink/proxy/copy/copy_like/write history of length <= 2 (quick) / 3 (thorough) is "
+      "checked against an abstract sharing model.",
+      "Mode S: structure bounded by the configuration families (1721 quick, 13237 thorough), values unbounded. A-real, A-cpython, A-pickle (unpickling calls exactly the "
+      "__reduce_ex__(2) recipe; the recipe interpreter in the contract file is trusted; real pickle.dumps/loads runs on every native replay/cross-check). Chemical and "
+      "Thermo round-trips are native only (bounded). 13 defects found by this check were repaired (fix: commits, known_findings.json).",
+      "deductive: sidecar contracts + VC generation by symbolic execution of the real functions, z3 discharge, native replay", "DESIGN.md 4/C13")
